@@ -76,8 +76,19 @@ ARITH = ('+', '-', '*', '//', '%', '/')
 CMPS = ('==', '!=', '<', '<=', '>', '>=', 'is', 'is not')
 
 
-def ty_of(e):
-    """Mirror of ty_of in C01Expr.v: 'int' | 'str' | 'bool' | 'cond' | 'none' | None (ill-typed)."""
+def ty_of(e, ext=False):
+    """Mirror of ty_of in C01Expr.v: 'int' | 'str' | 'bool' | 'cond' | 'none' | None (ill-typed).
+    ext=True also types the search-only node kinds."""
+    k = e[0]
+    if ext:
+        if k in ('like', 'between', 'cmpc'): return 'cond'
+        if k in ('upper', 'lower', 'slice'): return 'str'
+    _t = ty_of
+    ty_of_ = lambda x: _t(x, ext)
+    return _ty_of(e, ty_of_)
+
+
+def _ty_of(e, ty_of):
     k = e[0]
     if k == 'attr': return ATTRS[e[1]][1]
     if k in ('int', 'str', 'bool'): return k
@@ -127,7 +138,7 @@ def ty_of(e):
 def children(e):
     k = e[0]
     if k in ('attr', 'int', 'str', 'bool', 'none', 'param'): return []
-    if k == 'arith' or k == 'cmp': return [e[2], e[3]]
+    if k in ('arith', 'cmp', 'cmpc'): return [e[2], e[3]]
     if k in ('neg', 'abs', 'len', 'not', 'upper', 'lower'): return [e[1]]
     if k in ('concat', 'and', 'or'): return [e[1], e[2]]
     if k == 'in': return [e[2]]
@@ -181,7 +192,7 @@ def attrs_of(e, acc=None):
 def kinds_of(e, acc=None):
     acc = set() if acc is None else acc
     k = e[0]
-    acc.add(k + ':' + str(e[1]) if k in ('arith', 'cmp', 'like') else k)
+    acc.add(k + ':' + str(e[1]) if k in ('arith', 'cmp', 'like', 'cmpc') else k)
     for c in children(e): kinds_of(c, acc)
     return acc
 
@@ -202,7 +213,7 @@ def src(e):
     if k == 'abs': return 'abs(%s)' % src(e[1])
     if k == 'concat': return '(%s + %s)' % (src(e[1]), src(e[2]))
     if k == 'len': return 'len(%s)' % src(e[1])
-    if k == 'cmp': return '(%s %s %s)' % (src(e[2]), e[1], src(e[3]))
+    if k in ('cmp', 'cmpc'): return '(%s %s %s)' % (src(e[2]), e[1], src(e[3]))
     if k == 'and': return '(%s and %s)' % (src(e[1]), src(e[2]))
     if k == 'or': return '(%s or %s)' % (src(e[1]), src(e[2]))
     if k == 'not': return '(not %s)' % src(e[1])
@@ -272,11 +283,17 @@ def coq_pyv(v):
     raise ValueError(v)
 
 
-def coq_env(row, params):
-    """row: attr name -> value; params: index -> value."""
-    def fn(pairs):
-        return '(fun i => match i with %s | _ => PNone end)' % ' | '.join('%d%%nat => %s' % (i, coq_pyv(v)) for i, v in sorted(pairs)) if pairs else '(fun _ => PNone)'
-    return '(mkenv %s %s)' % (fn([(ATTRS[k][0], v) for k, v in row.items()]), fn(list(params.items())))
+def _coq_fn(pairs):
+    return '(fun i => match i with %s | _ => PNone end)' % ' | '.join('%d%%nat => %s' % (i, coq_pyv(v)) for i, v in sorted(pairs)) if pairs else '(fun _ => PNone)'
+
+
+def coq_rowfn(row):
+    return _coq_fn([(ATTRS[k][0], v) for k, v in row.items()])
+
+
+def coq_env(row, params, rowname=None):
+    """row: attr name -> value; params: index -> value. rowname: a Coq identifier already bound to coq_rowfn(row)."""
+    return '(mkenv %s %s)' % (rowname or coq_rowfn(row), _coq_fn(list(params.items())))
 
 
 DN = {'sqlite': 'DSqlite', 'postgres': 'DPostgres', 'mysql': 'DMysql', 'oracle': 'DOracle'}
@@ -396,7 +413,7 @@ def ref(e, row, params, k3=False):
     R = lambda x: ref(x, row, params, k3)
     def truth(x):
         v = R(x)
-        if ty_of(x) == 'cond': return v
+        if ty_of_ext(x) == 'cond': return v
         if v is None: return None if k3 else False
         return bool(v)
     if k == 'attr': return row[e[1]]
@@ -427,7 +444,7 @@ def ref(e, row, params, k3=False):
         a = R(e[1]); return None if a is None else len(a)
     if k == 'cmp':
         op = e[1]
-        ta, tb = ty_of(e[2]), ty_of(e[3])
+        ta, tb = ty_of_ext(e[2]), ty_of_ext(e[3])
         if tb == 'none' or ta == 'none':
             v = R(e[2]) if tb == 'none' else R(e[3])
             return (v is None) if op in ('==', 'is') else (v is not None)
@@ -439,6 +456,14 @@ def ref(e, row, params, k3=False):
         if op == '<=': return a <= b
         if op == '>': return a > b
         if op == '>=': return a >= b
+    if k == 'cmpc':
+        # comparison of truth values: (cond) == (cond / bool value); unknown if either side is unknown / None
+        def side(x):
+            v = R(x)
+            return v if (ty_of_ext(x) == 'cond' or v is None) else bool(v)
+        a, b = side(e[2]), side(e[3])
+        if a is None or b is None: return None
+        return (a == b) if e[1] == '==' else (a != b)
     if k == 'and':
         a = truth(e[1])
         if a is False: return False
@@ -448,7 +473,7 @@ def ref(e, row, params, k3=False):
         if a is True: return True
         return _or3(a, truth(e[2]))
     if k == 'not':
-        if ty_of(e[1]) == 'cond': return _not3(R(e[1]))
+        if ty_of_ext(e[1]) == 'cond': return _not3(R(e[1]))
         return not R(e[1])
     if k == 'in':
         v = R(e[2])
@@ -483,9 +508,10 @@ def ref(e, row, params, k3=False):
         if a is None or (e[2] is not None and lo is None) or (e[3] is not None and hi is None): return None
         return a[lo:hi]
     if k == 'between':
-        a, lo, hi = R(e[1]), R(e[2]), R(e[3])
-        if a is None or lo is None or hi is None: return None
-        return lo <= a <= hi
+        a, lo, hi = R(e[1]), R(e[2]), R(e[3])          # lo <= a <= hi, a chain of two comparisons
+        c1 = None if (lo is None or a is None) else (lo <= a)
+        c2 = None if (a is None or hi is None) else (a <= hi)
+        return _and3(c1, c2)
     raise ValueError(k)
 
 
@@ -498,10 +524,7 @@ def keeps(e, row, params, k3=False):
 
 def ty_of_ext(e):
     """ty_of extended to the search-only node kinds."""
-    k = e[0]
-    if k in ('like', 'between'): return 'cond'
-    if k in ('upper', 'lower', 'slice'): return 'str'
-    return ty_of(e)
+    return ty_of(e, True)
 
 
 def none_free(e, row, params):
@@ -597,7 +620,7 @@ class Gen(object):
         forms = {'int': ['arith', 'arith', 'arith', 'neg', 'abs', 'len', 'if', 'coalesce', 'minmax'],
                  'str': ['concat', 'concat', 'if', 'coalesce', 'minmax'],
                  'bool': ['if', 'coalesce']}[t]
-        if self.ext and t == 'str': forms = forms + ['upper', 'lower', 'slice']
+        if self.ext and t == 'str': forms = forms + ['upper', 'lower']      # slices: property C25
         f = rng.choice(forms)
         if f == 'arith':
             op = rng.choice(ARITH[:5] if rng.random() < 0.93 else ARITH)
@@ -642,7 +665,7 @@ class Gen(object):
         rng = self.rng
         forms = ['cmp', 'cmp', 'cmp', 'none', 'in']
         if d > 2: forms += ['and', 'or', 'not', 'not', 'and', 'or']
-        if self.ext: forms += ['like', 'between']
+        if self.ext: forms += ['like', 'between', 'cmpc']
         f = rng.choice(forms)
         if f == 'cmp':
             tys = rng.choice((('int', 'int'), ('int', 'int'), ('str', 'str'), ('int', 'bool'), ('bool', 'int'), ('bool', 'bool')))
@@ -669,6 +692,11 @@ class Gen(object):
             kind = rng.choice(('startswith', 'endswith', 'contains'))
             b = rng.choice((('str', rng.choice(('a', 'b', 'ab', '%', '_', 'a%', '!', ''))), self.new_param('str'), ('attr', 'u')))
             return ('like', kind, rng.random() < 0.3, self.value('str', d - 1, True), b)
+        if f == 'cmpc':
+            a = self.cond(max(2, d - 1), True)
+            b = self.cond(max(2, d - 1), True) if rng.random() < 0.5 else ('attr', rng.choice(BOOL_LEAF_ATTRS))
+            if rng.random() < 0.5: a, b = b, a
+            return ('cmpc', rng.choice(('==', '!=')), a, b)
         if f == 'between':
             return ('between', self.value('int', d - 1, True), self.leaf('int', False), self.leaf('int', False))
         raise ValueError(f)
@@ -714,18 +742,19 @@ def shrink_candidates(e):
     t = ty_of_ext(e)
     out = []
     for c in children(e):
-        if ty_of_ext(c) == t or (t == 'cond' and ty_of_ext(c) in VT): out.append(c)
-    k = e[0]
+        if ty_of_ext(c) == t: out.append(c)
     cs = children(e)
     for i, c in enumerate(cs):
         for c2 in shrink_candidates(c):
-            out.append(replace_child(e, i, c2))
+            if ty_of_ext(c2) == ty_of_ext(c): out.append(replace_child(e, i, c2))
+    if e[0] in ('and', 'or') and t == 'cond':
+        out += [c for c in cs if ty_of_ext(c) in VT]
     return out
 
 
 def replace_child(e, i, new):
     k = e[0]
-    if k in ('arith', 'cmp'):
+    if k in ('arith', 'cmp', 'cmpc'):
         l = list(e); l[2 + i] = new; return tuple(l)
     if k in ('neg', 'abs', 'len', 'not', 'upper', 'lower'): return (k, new)
     if k in ('concat', 'and', 'or'):
@@ -752,3 +781,79 @@ def to_json(e):
 def from_json(j):
     if isinstance(j, list): return tuple(from_json(x) for x in j)
     return j
+
+
+# ---------------------------------------------------------------------------------------------- bounded enumeration
+
+def enum_small():
+    """Every expression of depth <= 2 over a small leaf alphabet (wf and typed), as (expr, params) pairs; params are the
+    values of the external names used (x0: int -3, x1: str 'a', x2: bool True, x3: None)."""
+    P = {0: -3, 1: 'a', 2: True, 3: None}
+    leaves = {
+        'int': [('attr', 'a'), ('attr', 'r'), ('int', 2), ('int', 0), ('param', 0, 'int')],
+        'str': [('attr', 's'), ('attr', 'u'), ('str', 'ab'), ('str', ''), ('param', 1, 'str')],
+        'bool': [('attr', 'f'), ('attr', 'g'), ('bool', True), ('param', 2, 'bool')],
+    }
+    nones = [('none',), ('param', 3, None)]
+    out = []
+    def add(e):
+        if ty_of(e) is not None and wf(e): out.append(e)
+    for t in VT:
+        for l in leaves[t]:
+            if l[0] == 'attr': add(l)
+    I, S, B = leaves['int'], leaves['str'], leaves['bool']
+    for op in ARITH:
+        for a in I + B:
+            for b in I + B: add(('arith', op, a, b))
+    for a in I: add(('neg', a)); add(('abs', a))
+    for a in S:
+        add(('len', a))
+        for b in S: add(('concat', a, b))
+    for op in CMPS[:6]:
+        for a in I + B:
+            for b in I + B: add(('cmp', op, a, b))
+        for a in S:
+            for b in S: add(('cmp', op, a, b))
+    for op in ('==', '!=', 'is', 'is not'):
+        for a in I + S + B:
+            for n in nones:
+                add(('cmp', op, a, n)); add(('cmp', op, n, a))
+    allv = I + S + B
+    for a in allv:
+        add(('not', a))
+        for b in allv:
+            add(('and', a, b)); add(('or', a, b))
+    for neg in (False, True):
+        for a in I:
+            for items in ((), (('int', 2),), (('int', 0), ('int', 7))): add(('in', neg, a, items))
+        for a in S:
+            for items in ((), (('str', 'ab'),), (('str', ''), ('str', 'a'))): add(('in', neg, a, items))
+    for t in VT:
+        for c in S[:2] + B[:2]:
+            for x in leaves[t][:3]:
+                for y in leaves[t][:3]: add(('if', c, x, y))
+        for x in leaves[t]:
+            for y in leaves[t]:
+                add(('coalesce', (x, y)))
+                if t != 'bool':
+                    add(('minmax', False, (x, y))); add(('minmax', True, (x, y)))
+    return out, P
+
+
+def enum_depth3(rng, base, n):
+    """n expressions of depth 3 built from depth-2 conditions / values of enum_small (sampled with rng)."""
+    conds = [e for e in base if ty_of(e) == 'cond']
+    ints = [e for e in base if ty_of(e) == 'int' and depth(e) == 2]
+    out = []
+    while len(out) < n:
+        k = rng.randrange(8)
+        if k == 0: e = ('not', rng.choice(conds))
+        elif k == 1: e = ('and', rng.choice(conds), rng.choice(conds))
+        elif k == 2: e = ('or', rng.choice(conds), rng.choice(conds))
+        elif k == 3: e = ('not', ('and', rng.choice(conds), rng.choice(conds)))
+        elif k == 4: e = ('cmp', rng.choice(CMPS[:6]), rng.choice(ints), rng.choice(ints))
+        elif k == 5: e = ('if', rng.choice(conds), rng.choice(ints), rng.choice(ints))
+        elif k == 6: e = ('not', ('or', rng.choice(conds), ('not', rng.choice(conds))))
+        else: e = ('arith', rng.choice(ARITH[:5]), rng.choice(ints), rng.choice(ints))
+        if ty_of(e) is not None and wf(e): out.append(e)
+    return out
